@@ -107,7 +107,7 @@ pub fn deser_line(l: &str) -> String {
                 }
                 let mut bad = vec![];
                 if a.starts_with("panic") { bad.push(a.clone()); }
-                for tmpl in ["{} 2", "{} to hex", "{} + 1 day", "{} - 1 day", "{} - 1 month", "{} + 1", "{} * {}", "-{}", "{} to fraction", "{} to 3 sf", "sqrt {}", "{} == {}", "roll {}"] {
+                for tmpl in ["{} 2", "{} to hex", "{} + 1 day", "{} + 3 days", "{} + 400 days", "{} - 1 day", "{} - 400 days", "{} - 1 month", "{} - 13 months", "{} - 1 year", "{} + 1", "{} * {}", "-{}", "{} to fraction", "{} to 3 sf", "sqrt {}", "{} == {}", "roll {}"] {
                     let r = ev_ms(&mut c.clone(), &tmpl.replace("{}", name), 40);
                     if r.starts_with("panic") { bad.push(format!("`{}`: {r}", tmpl.replace("{}", name))); }
                 }
